@@ -773,6 +773,14 @@ IOS_ACCESSORS = [
 ]
 
 
+# patterns reached from a modelled entry point that no model scans for (the generator never produces a line they could
+# match): not tied, so that an edit of them is not reported against a model that does not depend on them.
+# (entry class, entry function) → prefixes of the pattern texts that are left out of the scan set
+NOT_MODELLED = {
+    ("IOSRouteLine", "__init__"): ("^ipv6\\s+route",),       # _RE_IPV6_ROUTE: Ccp.Model.IosModels covers `ip route` only
+}
+
+
 def ios_lean_name(cls, accessor):
     return "rxIos_" + cls + "_" + accessor.strip("_")
 
@@ -790,13 +798,19 @@ def emit_all(src, emit, lean_str):
     def t_scan(lean, fn, cls, func, kinds, stop, label):
         def go():
             items, reached = closure(fn, cls, func, kinds, stop)
+            left_out = NOT_MODELLED.get((cls, func), ())
+            n0 = len(items)
+            items = [t for t in items if not any(t[1].startswith(p) for p in left_out)]
+            if left_out and len(items) == n0:
+                raise KeyError(f"{cls}.{func}: nothing starts with {left_out} any more (NOT_MODELLED is stale)")
             if not items:
                 raise KeyError(f"{cls + '.' if cls else ''}{func} in {fn} contains none of the scanned constructs any more")
             via = [r for r in reached if r != (f"{cls}.{func}" if cls else func)]
             text = (f"/-- {label}scan set of `{fn}: {cls + '.' if cls else ''}{func}`"
                     + (f" (never entering {', '.join(stop)})" if stop else "")
                     + f"; kinds {'/'.join(kinds)};\nsorted: (what, text, flags or detail)"
-                    + (f"; helpers reached now: {', '.join(via)}" if via else "") + " -/\n"
+                    + (f"; helpers reached now: {', '.join(via)}" if via else "")
+                    + (f"; left out (not modelled): pattern texts starting with {', '.join(left_out)}" if left_out else "") + " -/\n"
                     f"def {lean} : List (String × String × String) :=\n  {lean_triples(items, lean_str)}\n")
             return text, len(items)
         return go
